@@ -208,6 +208,14 @@ class Facade:
             return sarr(out)
         return np.linspace(start, stop, num, **k)
 
+    def logspace(self, start, stop, num=50, endpoint=True, base=10.0, **k):
+        if is_symbolic_seq(start) or is_symbolic_seq(stop):
+            from vf import uf
+
+            lin = self.linspace(start, stop, num)
+            return sarr([uf.rpower(base, v) for v in lin])
+        return np.logspace(start, stop, num, endpoint=endpoint, base=base, **k)
+
     def append(self, arr, values, axis=None):
         if is_symbolic_seq(arr) or is_symbolic_seq(values):
             a = np.asarray(arr, dtype=object).ravel() if axis is None else np.asarray(arr, dtype=object)
